@@ -21,6 +21,9 @@ fn main() {
         "c14_bucket_full" => c14_bucket_full(&mut nd),
         "c20_block_cid" => c20_block_cid(&mut nd),
         "c20_batching" => c20_batching(&mut nd),
+        "c18_multihash" => c18_multihash(&mut nd),
+        "c18_key_blob" => c18_key_blob(&mut nd),
+        "c18_from_bytes" => c18_from_bytes(&mut nd),
         "c17_store_providers" => c17_store_providers(&mut nd),
         "c17_store_records" => c17_store_records(&mut nd),
         "c19_multistream_decode" => c19_multistream_decode(&mut nd),
